@@ -251,7 +251,11 @@ class collapsed_restrict_to_data(GenericEquality):
 
         if pre_defaults:
             s = set(pre_defaults)
-            incremental_expansion(self.defaults, orig=s)
+            # defaults is an unordered set; if it wasn't finalized it still holds
+            # negations (-* included), which have to be applied before the positives.
+            incremental_expansion(
+                sorted(self.defaults, key=lambda x: x[0] != "-"), orig=s
+            )
         else:
             s = set(self.defaults_finalized)
 
